@@ -215,7 +215,12 @@ let run_req (a : string array) : string * string =
     | Rejected _ -> "" in
   (canon, Printf.sprintf "reserves=%s;dbg=%s" (String.concat "," reserves) (hex_of_string dbg))
 
-let run_resp (a : string array) : string * string =
+let rec run_resp (a : string array) : string * string = run_resp_from resp_init a
+(* resppre <body> <deliveries>: the public body field holds something before the first call *)
+and run_resppre (a : string array) : string * string =
+  run_resp_from { resp_init with s_body = unhex a.(0) } (Array.sub a 1 (Array.length a - 1))
+and run_resp_from (init : resp_state) (a : string array) : string * string =
+  let resp_init = init in
   let ds = deliveries a.(0) in
   let (tr, r) = feed_trace resp_parse resp_init [] ds O in
   let reserves =
@@ -250,6 +255,21 @@ let run_dec (a : string array) : string * string =
       (match !inflate_gap_log with [] -> "" | l -> ";igl=" ^ String.concat "," l) in
   inflate_modelled := 0; inflate_skipped := 0; inflate_gaps := 0; inflate_gap_log := [];
   (canon, diag)
+
+(* decode_body again and again on one headers value: each call starts from the headers the previous one left
+   (unchanged after a failure) *)
+let run_decchain (a : string array) : string * string =
+  let hs = ref (parse_headers ~cp:true a.(0)) in
+  let outs = ref [] in
+  for i = 1 to Array.length a - 1 do
+    let body = unhex a.(i) in
+    let canon = match decode_body gunzip inflate_raw inflate_zlib !hs body with
+      | Some (hs', b) -> hs := hs'; Printf.sprintf "ok;b=%s;h=%s" (hex b) (show_headers ~cp:true hs')
+      | None -> Printf.sprintf "err:BadContentEncoding;h=%s" (show_headers ~cp:true !hs) in
+    outs := canon :: !outs
+  done;
+  inflate_modelled := 0; inflate_skipped := 0; inflate_gaps := 0; inflate_gap_log := [];
+  (String.concat "|" (List.rev !outs), "")
 
 let run_decseq (a : string array) : string * string =
   let n = Array.length a / 2 in
@@ -453,7 +473,9 @@ let run_defaults () =
 
 let run_case kind (a : string array) =
   match kind with
-  | "req" -> run_req a | "resp" -> run_resp a | "dec" -> run_dec a | "txt" -> run_txt a
+  | "req" | "reqd" -> run_req a | "resp" | "respd" -> run_resp a | "dec" -> run_dec a | "txt" -> run_txt a
+  | "decchain" -> run_decchain a
+  | "resppre" -> run_resppre a
   | "genreq" -> run_genreq a | "genresp" -> run_genresp a
   | "rtreq" -> run_rtreq a | "rtresp" -> run_rtresp a
   | "pipereq" -> run_pipereq a | "piperesp" -> run_piperesp a
